@@ -324,6 +324,11 @@ func profileFor(prop string) Profile {
 	case "C10":
 		p.Restart = 8
 		p.InjectFile = 35
+	case "C01", "C08":
+		// restarts from files that record more than fits (left by a kill, C09): what is not re-acquired
+		// must not stay listed, what is listed must fit
+		p.Restart = 6
+		p.InjectFile = 35
 	case "C03":
 		p.Blocking = 30
 	case "C07":
